@@ -147,8 +147,10 @@ func (l *Log) Layout() {
 			off = l.layoutEv(f.Prev, off)
 		}
 		for _, u := range f.Units {
-			for _, e := range u.Evs {
-				if e.K == "rotate" && !e.Fake {
+			for ei, e := range u.Evs {
+				if (e.K == "rotate" && !e.Fake) || (u.U == "rotate" && ei == 0) {
+					// (a file that ends without a ROTATE event - the master was restarted - ends with a STOP event, which
+					// carries the switch target only as scenario metadata)
 					nf := l.Files[fi+1]
 					e.RotFile, e.RotPos = nf.Name, uint64(nf.Base)+4
 				}
@@ -438,7 +440,7 @@ func genUnit(r *rand.Rand, kind string, tables []*Table, gp GenParams, ts *uint3
 		} else if r.Intn(3) == 0 {
 			add(&Ev{K: "anongtid", TS: next()})
 		}
-		add(&Ev{K: "query", TS: next(), Cat: "begin", DB: "d", SQL: randCase(r, "begin")})
+		add(&Ev{K: "query", TS: next(), Cat: "begin", DB: pickS(r, "d", "d", ""), SQL: randCase(r, "begin")})
 		if r.Intn(5) == 0 {
 			add(genIgnorable(r, *ts, true, gtidOn))
 		}
@@ -450,9 +452,9 @@ func genUnit(r *rand.Rand, kind string, tables []*Table, gp GenParams, ts *uint3
 		case "txxid":
 			add(&Ev{K: "xid", TS: next()})
 		case "txcommit":
-			add(&Ev{K: "query", TS: next(), Cat: "commit", DB: "d", SQL: randCase(r, "commit")})
+			add(&Ev{K: "query", TS: next(), Cat: "commit", DB: pickS(r, "d", "d", ""), SQL: randCase(r, "commit")})
 		default:
-			add(&Ev{K: "query", TS: next(), Cat: "rollback", DB: "d", SQL: randCase(r, "rollback")})
+			add(&Ev{K: "query", TS: next(), Cat: "rollback", DB: pickS(r, "d", "d", ""), SQL: randCase(r, "rollback")})
 		}
 	case "ddl":
 		if gtidOn {
@@ -469,7 +471,13 @@ func genUnit(r *rand.Rand, kind string, tables []*Table, gp GenParams, ts *uint3
 		add(&Ev{K: "tablemap", TS: next(), Tbl: t, Tail: optTail(r)})
 		add(genRowsEv(r, pickS(r, "write", "update", "delete"), t, gp, *ts))
 	case "rotate":
-		add(&Ev{K: "rotate", TS: next()})
+		if r.Intn(3) == 0 {
+			// the master was restarted: the file ends with a STOP event (type 3) and the switch to the next file is only
+			// announced by the artificial ROTATE the master sends in front of the next file
+			add(&Ev{K: "unknown", TS: next(), Code: 3})
+		} else {
+			add(&Ev{K: "rotate", TS: next()})
+		}
 	case "ign":
 		add(genIgnorable(r, next(), false, gtidOn))
 	}
